@@ -97,6 +97,11 @@ pub enum Req {
     RForget(u64),
     /// the TipInfo arm (height and tip hash read in one tracker section)
     RTipInfo,
+    /// the GetHeartbeat arm (the signed heartbeat carries the wall-clock time: the reply is reduced to its
+    /// length, the node-level `heartbeat` request compares height and tip)
+    RHeartbeat,
+    /// ChannelHandler (protocol version 4) arm SignLocalCommitmentTx2 for holder commitment 0
+    HSignLocal(usize),
 }
 
 impl Req {
@@ -123,7 +128,8 @@ impl Req {
             Req::RPreInvoice(_) => "add_invoice",
             Req::RNewChan(_) => "new_channel",
             Req::RForget(_) => "forget_channel",
-            Req::RTipInfo => "get_heartbeat",
+            Req::RTipInfo | Req::RHeartbeat => "get_heartbeat",
+            Req::HSignLocal(_) => "channel_request",
         }
     }
     pub fn line(&self, tid: usize) -> String {
@@ -157,6 +163,8 @@ impl Req {
             Req::RNewChan(d) => format!("req {} rnewchan {}", tid, d),
             Req::RForget(d) => format!("req {} rforget {}", tid, d),
             Req::RTipInfo => format!("req {} rtipinfo", tid),
+            Req::RHeartbeat => format!("req {} rheartbeat", tid),
+            Req::HSignLocal(c) => format!("req {} hsignlocal {}", tid, c),
         }
     }
     pub fn parse(toks: &[&str]) -> Option<(usize, Req)> {
@@ -193,6 +201,8 @@ impl Req {
             "rnewchan" => Req::RNewChan(arg()?),
             "rforget" => Req::RForget(arg()?),
             "rtipinfo" => Req::RTipInfo,
+            "rheartbeat" => Req::RHeartbeat,
+            "hsignlocal" => Req::HSignLocal(arg()? as usize),
             _ => return None,
         };
         Some((tid, r))
@@ -372,7 +382,7 @@ impl lightning_signer::util::clock::Clock for FixedClock {
 type RootApprover =vls_protocol_signer::approver::VelocityApprover<vls_protocol_signer::approver::NegativeApprover>;
 
 fn is_root_req(q: &Req) -> bool {
-    matches!(q, Req::RPreKeysend(_) | Req::RPreInvoice(_) | Req::RNewChan(_) | Req::RForget(_) | Req::RTipInfo)
+    matches!(q, Req::RPreKeysend(_) | Req::RPreInvoice(_) | Req::RNewChan(_) | Req::RForget(_) | Req::RTipInfo | Req::RHeartbeat)
 }
 
 /// a RootHandler on the node with a velocity approver (its own constant clock: the approver's windows do
@@ -716,7 +726,7 @@ fn build_world(sc: &Scenario) -> World {
     let mut pay_commits = Vec::new();
     let needs = |f: &dyn Fn(&Req) -> bool| sc.threads.iter().flatten().any(|q| f(q));
     let need_plain = needs(&|q| matches!(q, Req::Validate(_) | Req::HVal(_, _) | Req::Refused(_)));
-    let need_handler = needs(&|q| matches!(q, Req::HVal(_, _)));
+    let need_handler = needs(&|q| matches!(q, Req::HVal(_, _) | Req::HSignLocal(_)));
     let mut commits_b = Vec::new();
     let mut handlers = Vec::new();
     let need_pay = needs(&|q| matches!(q, Req::PayHv(_)));
@@ -1135,6 +1145,22 @@ fn do_req(w: &World, r: &Req) -> String {
             use vls_protocol::msgs::{self, Message};
             root_handle(w, Message::TipInfo(msgs::TipInfo {}))
         }
+        Req::RHeartbeat => {
+            use vls_protocol::msgs::{self, Message};
+            let r = root_handle(w, Message::GetHeartbeat(msgs::GetHeartbeat {}));
+            if r.starts_with("ok ") { "ok".into() } else { r }
+        }
+        Req::HSignLocal(c) => match w.handlers.get(*c).and_then(|h| h.as_ref()) {
+            Some(h) => {
+                use vls_protocol::msgs::{self, Message};
+                use vls_protocol_signer::handler::Handler;
+                match h.handle(Message::SignLocalCommitmentTx2(msgs::SignLocalCommitmentTx2 { commitment_number: 0 })) {
+                    Ok(reply) => format!("ok {}", &hex::encode(reply.as_vec())[..24.min(reply.as_vec().len() * 2)]),
+                    Err(e) => format!("err:{:?}", e).chars().take(140).collect(),
+                }
+            }
+            None => "nochan".into(),
+        },
         Req::Onchain => {
             let (tx, c) = &w.onchain;
             let r = node.check_onchain_tx(tx, &[], &c.prev_outs, &c.iuckeys, &c.opaths);
@@ -2343,6 +2369,12 @@ impl Group for C20 {
             p(1, false, Req::RTipInfo, Req::AddBlock(0)),
             p(1, false, Req::RPreKeysend(1), Req::Heartbeat),
             p(1, false, Req::RForget(1), Req::Validate(0)),
+            p(1, false, Req::RHeartbeat, Req::RForget(1)),
+            p(1, false, Req::RHeartbeat, Req::Validate(0)),
+            p(1, false, Req::RHeartbeat, Req::RNewChan(50)),
+            p(1, false, Req::HSignLocal(0), Req::Keysend(1)),
+            p(1, false, Req::HSignLocal(0), Req::HVal(0, 0)),
+            p(1, false, Req::HSignLocal(0), Req::Balance),
         ];
         let mut out = Vec::new();
         for sc in &pairs {
